@@ -142,6 +142,7 @@ func runCheck(prop, tier string, seed int) int {
 		}
 	}
 	// lemmas
+	evidenceSpecs = S
 	lemmaObls := lemmaObligations(S, prop)
 	d := &Discharger{Dir: filepath.Join(outDir, "smt"), Timeout: timeout, Workers: 14, All: tier == "thorough"}
 	d.Run(all)
@@ -421,6 +422,32 @@ func writeEvidence(prop, tier string, seed int, all []*Obligation, keys []string
 			assumptions = append(assumptions, k)
 		}
 	}
+	// preconditions of the functions under contract: obligations at in-package call sites, assumptions for callers outside
+	if evidenceSpecs != nil {
+		for _, k := range keys {
+			if c := evidenceSpecs.Contracts[k]; c != nil {
+				for _, r := range c.Requires {
+					assumptions = append(assumptions, "precondition of "+k+" (checked at every call site inside the package, assumed for callers outside): "+trunc(r.Text, 300))
+				}
+				if c.Unverified {
+					assumptions = append(assumptions, "contract of "+k+" is used by its callers but its body is not discharged (unverified)")
+				}
+			}
+		}
+	}
+	byKind := map[string]int{}
+	byFunc := map[string]int{}
+	var lemmas []string
+	for _, o := range all {
+		if o.IsCanary {
+			continue
+		}
+		byKind[o.Kind]++
+		byFunc[o.Func]++
+		if o.Kind == "lemma" {
+			lemmas = append(lemmas, o.Name+": "+o.Res.Answer+" ("+o.Res.Solver+")")
+		}
+	}
 	sort.Strings(trusted)
 	sort.Strings(assumptions)
 	trusted = append(trusted, "go/ssa (x/tools v0.29.0) translation of the Go source", "SMT solvers z3 4.8.12, z3 5.1.0, cvc5 1.0.x", "govc VC generator (this framework)")
@@ -428,6 +455,9 @@ func writeEvidence(prop, tier string, seed int, all []*Obligation, keys []string
 		"partial correctness: termination is not proved",
 		"a pointer parameter to a struct is not interior to another parameter's object",
 		"package-level variables are immutable after init",
+		"machine integers are modelled as mathematical integers with explicit wrap-around at the width of their Go type (not assumed away); shifts, masks and bit-or with constants exactly, other bit operations uninterpreted",
+		"no slice, string or channel buffer holds more than 2^48 elements (sums of a few lengths do not overflow int)",
+		"one goroutine at a time: interference from other goroutines only through the declared channel content invariants and rely clauses (stable / onclosed / recvinv), which are assumptions here",
 	)
 	cov := map[string]any{
 		"obligations":              n - kf,
@@ -437,7 +467,10 @@ func writeEvidence(prop, tier string, seed int, all []*Obligation, keys []string
 		"functions_under_contract": keys,
 		"samples":                  samples,
 		"vacuous":                  vac,
-		"explanation":              "Each obligation is a verification condition generated from the SSA of the function in /repo's working tree and its contract, discharged (unsat of the negation) by one of three SMT solvers raced per obligation. Obligations matched by a known finding are excluded from both counts.",
+		"explanation":              "Each obligation is a verification condition generated from the SSA of the function in /repo's working tree and its contract (weakest-precondition style symbolic execution with state merging, loops cut at invariants or unrolled with an unwinding obligation), discharged (unsat of the negation) by z3 5.1.0, z3 4.8.12 or cvc5 raced per obligation, in stages: quantifier-free assumptions, then the quantified facts named by by= hints, then those about values the goal mentions, then all (a refutation from a subset of the assumptions is a refutation). Lemma obligations are self-contained SMT scripts behind the raw axioms. Obligations matched by a known finding are excluded from both counts.",
+		"obligations_by_kind":      byKind,
+		"obligations_by_function":  byFunc,
+		"lemmas":                   lemmas,
 	}
 	for k, v := range stats {
 		cov[k] = v
@@ -449,6 +482,8 @@ func writeEvidence(prop, tier string, seed int, all []*Obligation, keys []string
 	data, _ := json.MarshalIndent(ev, "", " ")
 	writeFileMk(filepath.Join(outRoot, "evidence", prop+".json"), string(data))
 }
+
+var evidenceSpecs *Specs
 
 // ---- lemmas: self-contained SMT obligations from the spec files ----
 
